@@ -42,3 +42,11 @@ add("C10", "exploration",
 add("C17", "exploration",
     "Scripted readers over {deliver k, Interrupted, EOF, hard error kinds} up to 12 steps x counts x attempt limits x arena states, directly on ByteArena::read_n and through Encoder/Decoder read_n, encode_read, decode_read: result, number of reader calls and buffer length offered per call must equal a ten-line reference of the documented loop; failed reads leave the codec output unchanged (checked by the codec oracles).",
     IOVEC_NOTE, DST, "DESIGN.md 5/C17", "simw")
+T_NOTE = ("Trusted: the baton scheduler (exactly one simulated thread runs at a time; real threads parked at intercepted points), the promise-free release/acquire view model (a subset of the behaviours the C++/Rust model allows: no load buffering, stores appended at the end of modification order), hook H3a stand-ins. "
+          "Bounded: <= 4 threads, <= 8 calls per thread, <= 600 steps per thread. Sampling, not proof.")
+add("C13", "exploration",
+    "Real AtomicBaseTime code on real threads under a simulator-owned scheduler (uniform, PCT, reader starvation, round robin, run-to-completion) with atomics' values served from a release/acquire view memory model that returns stale messages where the orderings allow it, and in sequentially consistent mode; the recorded history is judged: every snapshot is an accepted pair (unique bases), at least as recent as every update that happens-before its invocation, per-thread monotone; older updates ignored, newer accepted; no panic, no deadlock.",
+    T_NOTE, DST + " (own thread scheduler + view-based weak memory model)", "DESIGN.md 3.3, 5/C13", "simw")
+add("C18", "fault_enumeration",
+    "Stall fault enumerated over every suspension point of one writer (each hook event of update/try_update, with and without the lock; run index modulo the step count) and sampled for two writers; after the stall a snapshot thread and a try_update thread run alone, one after the other: the snapshot must finish with exactly 4 atomic loads and no lock operation (sequentially consistent runs), try_update must finish without a blocking lock operation and return false when a stalled writer holds the lock; a blocked or over-long solo thread is reported by the deadlock/step-cap detector.",
+    T_NOTE + " get_base_time_unlocked is a one-line call of snapshot on the static instance; it is covered through snapshot (reading the code), not driven separately.", DST + " (stall-point enumeration)", "DESIGN.md 3.3, 5/C18", "simw")
